@@ -35,7 +35,7 @@ CLAIMS = {
  'C08': ('other', 'Proved: the cache conjunct I6 (block.size / last_newline_index = folds over token sizes) for _StoreBlock.rebuild and from_tokens, with the frame lemma; TI (cached token size = size of its text, fresh Position) after every text setter, '
          'and that _raw_text is only written through Token._update_raw_text; TokenStore.update only touches the caches of the token\'s block. Not yet proved: the cache aspect of update/get_position/_splice fast path (bounded only); Lean lemma tsize_append ties folds to text positions.' + B,
          TB + 'A-str (count/rfind/len uninterpreted with axioms); bounded: L in {2,3} store driver with positions checked against the concatenated text after every step; document-level token edits', '5 C08'),
- 'C09': ('other', 'No obligations yet for the CostSpec/Transaction setters (match statements, walrus chains: planned unit l5); the property is decided by the bounded state-machine driver only in this version.' + B,
+ 'C09': ('other', 'Proved for all inputs: the three getters of the dependent group (CostSpec.raw_number_per / raw_number_total / raw_currency) are the abstraction functions, and each of the three setters sets its own field, leaves the other two and date/label/merge as they were (up to value-preserving copies), re-establishes the canonical-form invariant, or refuses with nothing changed - from every concrete form of the component list (634 obligations over the match/walrus code of cost_spec.py, seen through the seven typed component slots). Not under contract: Transaction payee/narration, the generic value properties, survival of re-parse (bounded only).' + B,
          'bounded only: every initial cost form x assignment sequences <= 2 (quick) / 3 (thorough) against the record-of-optionals model, Transaction payee/narration, generic value properties; survives re-parse', '5 C09'),
  'C10': ('other', 'Proved for all inputs: _RepeatedValueWrapperUpdateHandler.handle_splice re-establishes the index-table invariant RI (soundness and completeness, stated with the recursive rank function and 6 induction lemmas) for every l <= r, every value list and every table. '
          'Not yet under contract: the notification postconditions of the raw wrapper mutators and the list/dict semantics of the view methods (bounded only).' + B,
@@ -58,12 +58,12 @@ CLAIMS = {
  'C17': ('other', 'Proved: _find_spacing (for an arbitrary successor function) skips zero-width tokens, then returns exactly the visible tokens of the maximal run of Newline/Whitespace tokens, in order, nothing else in between. '
          'The four accessor properties that pass store.get_prev/get_next are bounded only.' + B,
          TB + 'Nbh from parsing (A-lark-4); bounded: corpus x every model/token x both sides x 6-7 spacing strings; two-sides agreement for visible neighbours', '5 C17'),
- 'C18': ('other', 'No obligations yet for the indent plumbing (meta_item_internal._get_indent etc.); decided by the bounded driver only in this version.' + B,
+ 'C18': ('other', "Proved: RepeatedMetaItemWrapper._get_indent is pure and returns the indentation of the first existing item, else the owner's default; mapping[key] = value updates an existing key in place (no item created, no indentation changed) and otherwise appends exactly one fresh item whose indent is that rule's value at that moment. Not under contract: _get_default_indent (descriptor calls), the leading/trailing comment route, raw inserts (bounded only)." + B,
          'bounded only: entries and postings x 4 meta layouts x 5 indent_by values x action sequences <= 3 incl. layout changes between two value insertions', '5 C18'),
  'C19': ('other', 'Proved: exceptional postconditions (state unchanged) of TokenStore._splice/splice/insert_after/insert_before/replace/remove/from_tokens and of the raw_text setters (parse before write); '
          'must-refuse posts: a normal return of _splice/splice/replace implies every offered token was free or strictly inside the removed range. Not yet under contract: L2+ refusal sites (bounded only).' + B,
          TB + 'bounded: every refused call of the document driver, cost/transaction state machines, store re-insertion cases', '5 C19'),
- 'C20': ('other', 'Proved: _eq of every template class is exactly isinstance(other, C) and every slot equal (and indent_by equal). Not yet under contract: RawTokenModel.__eq__/__hash__, RawTreeModel.__eq__, Repeated._eq (bounded only).' + B,
+ 'C20': ('other', 'Proved: _eq of every template class is exactly isinstance(other, C) and every slot equal (and indent_by equal); RawTokenModel.__eq__ is RULE and raw-text equality and __hash__ is a pure function of (RULE, current raw text), so equal tokens hash equally at any time. Not yet under contract: RawTreeModel.__eq__, Repeated._eq (bounded only).' + B,
          TB + 'bounded: parse twice, deepcopy, token eq/hash, single-token / child / ownership perturbations over the corpus', '5 C20'),
 }
 
